@@ -383,6 +383,10 @@ impl SerialiseInto for &str {
     }
 }
 
+fn prefix_mask(prefixlen: u8) -> u128 {
+    !(u128::MAX.checked_shr(prefixlen.into()).unwrap_or(0))
+}
+
 fn serialise_router_advertisement(a: &RtrAdvertisement) -> Vec<u8> {
     let mut v: Serialise = Default::default();
     v.serialise(ND_ROUTER_ADVERT.0);
@@ -424,7 +428,12 @@ fn serialise_router_advertisement(a: &RtrAdvertisement) -> Vec<u8> {
                 v.serialise(u32::try_from(prefix.valid.as_secs()).unwrap_or(u32::MAX));
                 v.serialise(u32::try_from(prefix.preferred.as_secs()).unwrap_or(u32::MAX));
                 v.serialise(0_u32);
-                v.serialise(&prefix.prefix);
+                /* RFC4861 Section 4.6.2: The bits in the prefix after the prefix length are
+                 * reserved and MUST be initialized to zero by the sender.
+                 */
+                v.serialise(&std::net::Ipv6Addr::from(
+                    u128::from(prefix.prefix) & prefix_mask(prefix.prefixlen),
+                ));
             }
             NDOptionValue::RecursiveDnsServers((lifetime, servers)) => {
                 use std::convert::TryFrom as _;
@@ -480,6 +489,8 @@ fn serialise_router_advertisement(a: &RtrAdvertisement) -> Vec<u8> {
                  */
                 let scaled_lifetime = std::cmp::min(lifetime.as_secs().div_ceil(8), 8191) as u16;
                 v.serialise((scaled_lifetime << 3) | plc);
+                let prefix =
+                    std::net::Ipv6Addr::from(u128::from(*prefix) & prefix_mask(*prefixlen));
                 for i in 0..12 {
                     v.serialise(prefix.octets()[i])
                 }
